@@ -1,12 +1,61 @@
+"""C01 -- glitch-free update order.
+(a) level T (tprops): the real Ticker under every answer order of small wirings, compared with Model/Ticker.v;
+    Coq oracles re-check the gate on every observed trace.
+(b) level S: the same Ticker inside whole simulations (real schedulers and components on the in-memory bus), where the
+    scheduler's own handlers feed answers and skips back into the ticker: every tick must complete (no participant
+    raises, nothing stalls) and the run must agree with Model/Sim.v."""
+import json
+
+import sprops
 import tprops
+from common import run_shards
 
 PID = "C01"
 
 
+def s_part(ck, tier, rng):
+    cases, _ = sprops.gen_single_cases(tier, rng, "callbacks")
+    cases = cases[:{"quick": 120, "thorough": 500}[tier]]
+    runs, terms = [], []
+    for c in cases:
+        r, term = sprops.run_case(c["cfg"], c["devs"], c["speed"], c["initial"], c["stim"])
+        runs.append(r)
+        terms.append(term)
+    bad = run_shards(PID + "_sim", sprops.HEADER, "sim_case", "check_sim", terms, shard_size=12)
+    skipped = 0
+    for c, r in zip(cases, runs):
+        ck.count("sim:" + json.dumps(sprops.describe(c), sort_keys=True), sprops.nontrivial(c, r))
+    ck.coverage.update(whole_simulations=len(cases), whole_simulation_disagreements=len(bad))
+    for i, (c, r) in enumerate(zip(cases, runs)):
+        if r["error"] or r["errors"] or r["unfinished"]:
+            d = sprops.describe(c)
+            d.update(kind="single", codes=[99], error=r["error"], errors=r["errors"][:3], unfinished_ticks=r["unfinished"],
+                     updates=[(cc, t) for (cc, t, _) in r["trace"]][:30])
+            ck.report("tick-did-not-complete-in-a-whole-simulation",
+                      "the ticker, driven by the real scheduler and components, is still waiting for answers of "
+                      f"{r['unfinished']} when the simulation has gone idle (or a participant raised: {(r['errors'] or [r['error']])[0]})"[:400], d)
+            return
+    if bad and not ck.violations:
+        i = min(bad)
+        d = sprops.describe(cases[i])
+        d.update(kind="single", codes=bad[i], broken="correspondence Model/Sim.v vs whole simulations; theorems of Props.C01")
+        ck.report("correspondence-broken", "whole simulations disagree with Model/Sim.v but every tick completed", d, no_input=True)
+
+
 def main(tier, seed):
     return tprops.main_T(PID, tier, seed, {11, 12, 16, 17, 18}, "Props.C01",
-                         ["Model/Ticker.v", "Oracle/TickerOracle.v", "Proofs/TickerP.v", "Props/C01.v"],
-                         "glitch-free update order")
+                         ["Model/Ticker.v", "Oracle/TickerOracle.v", "Proofs/TickerP.v", "Model/Sim.v", "Oracle/SimCheck.v", "Oracle/SimOracle.v",
+                          "Props/C01.v"],
+                         "glitch-free update order", extra=s_part)
 
 
-replay = tprops.replay_T
+def replay(rp):
+    if rp.get("kind") == "single":
+        cfg = {int(k): dict(order=[(c, (k2 if k2 == "dev" else int(k2))) for c, k2 in v["order"]],
+                            conns=[tuple(x) for x in v["conns"]]) for k, v in rp["cfg"].items()}
+        r, _ = sprops.run_case(cfg, {int(k): tuple(v) for k, v in rp["devs"].items()}, tuple(rp["speed"]), rp["initial"],
+                               [tuple(x) for x in rp["stim"]])
+        print("tickers still waiting for answers at the end:", r["unfinished"], "errors:", r["error"], r["errors"][:2])
+        print("updates (device, time):", [(c, t) for (c, t, _) in r["trace"]][:30])
+        return 1 if (r["unfinished"] or r["error"] or r["errors"]) else sprops.replay_S(rp)
+    return tprops.replay_T(rp)
